@@ -80,3 +80,13 @@ Example guard_nontrivial :
     [EOk; EOk; EOk; EOk; EOk; EDup; EOk; EOk; EOk; EOk; EOk; EOk; EOk; EOk; EOk; ENotFound; EInvalid; EOk] /\
   List.length (kv (snd (run init (firstn 12 w_safe)))) = 6%nat.
 Proof. vm_compute. repeat split; reflexivity. Qed.
+
+(** the hypotheses of the query theorem are met by a history that leaves rows:
+    listing index To under prefix "b" after the second save of [w_safe] *)
+Example query_nontrivial :
+  safe_words (firstn 11 w_safe) = true /\
+  list_index (kv (snd (run init (firstn 11 w_safe ++ [OSave])))) (mkQ (QIdx ITo) (bs "b") [] 0 true)
+  = (EOk, [(k2, mkRow k2 (bs "b") (bs "") 7)]) /\
+  list_index (kv (snd (run init (firstn 11 w_safe ++ [OSave])))) (mkQ QPrimary (bs "k") [] 0 false)
+  = (EOk, [(k2, mkRow k2 (bs "b") (bs "") 7); (k1, w_r1)]).
+Proof. vm_compute. repeat split; reflexivity. Qed.
